@@ -124,7 +124,9 @@ MISSING = ['nope.lua', 'nope.p8', 'nope.p8.png', 'sub/nope.lua', 'l0.p8', 'dir.l
 
 
 CARTS_ROOT = 'home/.lexaloffle/pico-8/carts'
-CART_DIR = {'c': 'c', 'carts': CARTS_ROOT + '/mygame'}     # where the including cart lives (case['where'])
+# where the including cart lives (case['where']): the plain directory, a sub-folder of the PICO-8 carts folder, a
+# second plain copy used by the cases that load twice, and the plain directory reached through a symbolic link
+CART_DIR = {'c': 'c', 'carts': CARTS_ROOT + '/mygame', 'tw': 'c_tw', 'lnk': 'lnk'}
 
 
 def p8_file(code):
@@ -177,6 +179,8 @@ def sandbox():
     for name in CART_CODES:
         fsobs.write_file(os.path.join(S, CARTS_ROOT, name + '.p8'), p8_file(b'decoy_cart=1\n'))
     fsobs.write_file(os.path.join(S, CARTS_ROOT, 'sub', 'l0.lua'), b'decoy_sub=1\n')
+    shutil.copytree(os.path.join(S, 'c'), os.path.join(S, CART_DIR['tw']))
+    os.symlink(os.path.join(S, 'c'), os.path.join(S, CART_DIR['lnk']))
     SB['root'], SB['content'] = S, content
     SB['view'] = None
     SB['view_ok'] = []
@@ -194,7 +198,8 @@ def fs_view(S):
         from pico8.game.formatter.p8 import P8Formatter
         from pico8.game.formatter.p8png import P8PNGFormatter
         files, carts = [], []
-        walk = list(os.walk(os.path.join(S, 'c'))) + list(os.walk(os.path.join(S, CARTS_ROOT)))
+        walk = list(os.walk(os.path.join(S, 'c'))) + list(os.walk(os.path.join(S, CARTS_ROOT))) + \
+            list(os.walk(os.path.join(S, CART_DIR['tw']))) + list(os.walk(os.path.join(S, CART_DIR['lnk'])))
         for root, _, fs in walk:
             for f in sorted(fs):
                 if f == 'host.p8':
@@ -211,6 +216,10 @@ def fs_view(S):
                         rel = os.path.relpath(full, os.path.join(S, 'c'))
                         if full.startswith(os.path.join(S, CART_DIR['carts']) + '/'):
                             rel = os.path.relpath(full, os.path.join(S, CART_DIR['carts']))
+                        elif full.startswith(os.path.join(S, CART_DIR['tw']) + '/'):
+                            rel = os.path.relpath(full, os.path.join(S, CART_DIR['tw']))
+                        elif full.startswith(os.path.join(S, CART_DIR['lnk']) + '/'):
+                            rel = os.path.relpath(full, os.path.join(S, CART_DIR['lnk']))
                         elif not full.startswith(os.path.join(S, 'c') + '/'):
                             rel = None                    # a decoy
                         if rel in SB['content']:
@@ -338,6 +347,11 @@ def generate(tier, rng):
             c['final_nl'] = False
         if i % 4 == 3:
             c['where'] = 'carts'       # the including cart lives in a sub-folder of the PICO-8 carts folder
+        elif i % 8 == 1:
+            c['where'] = 'tw'          # loaded twice in this process, the targets changed in between
+            c['twice'] = 1
+        elif i % 8 == 5:
+            c['where'] = 'lnk'         # the cart's directory is reached through a symbolic link
         yield c
 
 
@@ -374,6 +388,12 @@ def corpus_cases():
     yield {'kind': 'load', 'host': ['a=1', '#include l0.lua', '#include sub/l0.lua', '#include t0.p8:1', 'b=2'],
            'names': ['l0.lua', 'sub/l0.lua', 't0.p8'], 'mode': 'abs', 'where': 'carts'}
     yield {'kind': 'load', 'host': ['#include l1.lua', '#include t1.p8.png'], 'names': ['l1.lua', 't1.p8.png'], 'mode': 'relc', 'where': 'carts'}
+    # loaded twice, targets edited in between; the cart's directory behind a symbolic link
+    yield {'kind': 'load', 'host': ['a=1', '#include l0.lua', '#include t0.p8:1', 'b=2'], 'names': ['l0.lua', 't0.p8'],
+           'mode': 'abs', 'where': 'tw', 'twice': 1}
+    yield {'kind': 'load', 'host': ['a=1', '#include l0.lua', '#include sub/l0.lua', '#include t0.p8:1', '#include t1.p8.png', 'b=2'],
+           'names': ['l0.lua', 'sub/l0.lua', 't0.p8', 't1.p8.png'], 'mode': 'abs', 'where': 'lnk'}
+    yield {'kind': 'load', 'host': ['#include l1.lua'], 'names': ['l1.lua'], 'mode': 'relc', 'where': 'lnk'}
     # lone carriage returns in an included file
     yield {'kind': 'load', 'host': ['a=1', '#include l8.lua', '#include l9.lua', 'b=2'], 'names': ['l8.lua', 'l9.lua'], 'mode': 'abs'}
     yield {'kind': 'nofile', 'host': ['x=1', '#include l0.lua']}
@@ -431,6 +451,23 @@ def _run_impl(case):
         data = fsobs.p8_text('\n'.join(case['host']).encode('utf-8'), tail=b'')
     fsobs.write_file(host_path, data)
     obs = {'S': S, 'cwd': cwd, 'arg': arg, 'home': os.path.join(S, 'home'), 'host_path': host_path}
+    if case.get('twice'):
+        # the cart is loaded once while its .lua / .p8 targets hold OTHER text, the targets get the text of the
+        # fixture back, and the load that is observed follows in the same process: what was read earlier from a
+        # path must not be remembered
+        saved = {}
+        for name in case['names']:
+            full = os.path.normpath(os.path.join(D, name))
+            if os.path.isfile(full) and not name.endswith('.png'):
+                saved[full] = fsobs.read_file(full)
+                fsobs.write_file(full, b'stale_before=1\n' if name.endswith('.lua') else p8_file(b'stale_cart=1\n-->8\nstale_tab=1\n'))
+        with fsobs.environment(cwd=cwd, home=obs['home']), fsobs.quiet():
+            try:
+                pfile.from_file(arg)
+            except Exception:  # noqa
+                pass
+        for full, data0 in saved.items():
+            fsobs.write_file(full, data0)
     with fsobs.environment(cwd=cwd, home=obs['home']), fsobs.quiet():
         with open(arg, 'rb') as fh:
             raw = p8._get_raw_data_from_p8_file(fh, filename=arg).section_lines.get('lua', [])
